@@ -146,6 +146,11 @@ int main(int argc, char** argv) {
   structural("vector<vector<vector<int>>>", std::vector<std::vector<std::vector<int>>>{{{1}, {}}, {}}, "{ { { 1 }, {  } }, {  } }");
   structural("vector<tuple<int,pair<const char*,Custom>>>", std::vector<std::tuple<int, std::pair<const char*, Custom>>>{std::make_tuple(1, std::make_pair((const char*)nullptr, Custom{4}))}, "{ { 1, { nullptr, Custom<4> } } }");
   { int carr[3] = {1, 2, 3}; structural("int[3]", carr, "{ 1, 2, 3 }"); }
+  // arrays of char are collections of characters (element-wise, embedded NULs included), not C strings - const or not
+  { const char cc[6] = {'a', 'b', '\0', 'c', 'd', '\0'}; char mc[3] = {'x', '\0', 'y'}; const char c2[2][2] = {{'p', 'q'}, {'\0', 'r'}};
+    std::string z(1, '\0');
+    structural("const char[6] with embedded NULs", cc, "{ a, b, " + z + ", c, d, " + z + " }"); structural("char[3] with an embedded NUL", mc, "{ x, " + z + ", y }");
+    structural("const char[2][2]", c2, "{ { p, q }, { " + z + ", r } }"); }
   // collections whose elements are built-in arrays: still element-wise, still null-safe
   { int m2[2][3] = {{1, 2, 3}, {4, 5, 6}}; structural("int[2][3]", m2, "{ { 1, 2, 3 }, { 4, 5, 6 } }"); }
   { const char* s2[2][2] = {{"a", nullptr}, {nullptr, "b"}}; structural("const char*[2][2] with nulls", s2, "{ { a, nullptr }, { nullptr, b } }"); }
